@@ -25,6 +25,11 @@ BOUNDS = {"quick": {"polygons": "n=3,4 all, every 4th 5-gon; starts 0 and 2", "c
 MARGIN = 1e-6
 OFFS = [Fr(1, 100000), Fr(1, 1000), Fr(3, 10)]
 CHUNK = 40
+FAR2 = [
+    {"rz": 0, "scale": 1.0, "shift": [0.0, 0.0], "abs": [-(2.0**27), 2.0**27]},
+    {"rz": 1, "scale": 1.0, "shift": [0.0, 0.0], "abs": [2.0**27, 2.0**24]},
+    {"rz": 2, "scale": 2.0**-10, "shift": [0.0, 0.0], "abs": [-(2.0**17), -(2.0**17)]},
+]
 
 
 def cases(tier):
@@ -39,6 +44,10 @@ def cases(tier):
                     k = i + st + ns
                     key, pl = ("pl2", PL2[k % len(PL2)]) if k % 2 == 0 else ("pl", PL3[k % len(PL3)])
                     out.append({"kind": "polygon", "poly": [list(p) for p in c], "start": st, "normal": nspec, key: pl})
+                    if k % 7 == 0:
+                        # "irrespective of centre offset": 2^27 sizes from the origin (membership stays well conditioned:
+                        # the margin is 2e-6 L, the coordinates are exact to 3e-8)
+                        out.append({"kind": "polygon", "poly": [list(p) for p in c], "start": st, "normal": nspec, "pl2": FAR2[(k // 7) % len(FAR2)]})
     axes = A.AXES
     for ia, a in enumerate(axes):
         for k in range(4):
